@@ -334,6 +334,27 @@ func genC20Conc(t *rapid.T) c20Conc {
 		default:
 			c.Words = append(c.Words, rapid.SampledFrom(lists.Uninflected).Draw(t, "w"))
 		}
+		if rapid.IntRange(0, 2).Draw(t, "nearby") == 0 {
+			// a different input that a sloppy cache key could mistake for an earlier one
+			w := c.Words[rapid.IntRange(0, len(c.Words)-1).Draw(t, "of")]
+			switch rapid.IntRange(0, 6).Draw(t, "how") {
+			case 0:
+				w += "\x00"
+			case 1:
+				w += "\x00\x00"
+			case 2:
+				w = strings.ToUpper(w)
+			case 3:
+				w = strings.Repeat("x", 64) + " " + w
+			case 4:
+				w += " "
+			case 5:
+				w = strings.Repeat(w+" ", 9) + w
+			default:
+				w = "\x00" + w
+			}
+			c.Words = append(c.Words, w)
+		}
 	}
 	return c
 }
